@@ -109,17 +109,18 @@ def r13_9(chk, facts):
                       'mirrored (`>` in max*, `<` in min*): same type checks, same error returns, and the running best and its index are updated together', floor=2)
     def summary(fn):
         g = C.CFG(fn['body'])
+        al = A.pure_aliases(fn['body'])
         out = set(); ops = set()
         def render(a, lab):
-            t = A.text(a)
             c = G.comparison(a)
             if c and c[0] in ('<', '>', '<=', '>=') and not any(A.callee_name(y) in ('size', 'length') for y in A.calls_in(a)):
-                ops.add(c[0]); t = 'RUNNING(%s, %s)' % (A.text(c[1]), A.text(c[2]))
-            return ('' if lab else '!') + t
+                ops.add(c[0]); return ('' if lab else '!') + 'RUNNING(%s, %s)' % (A.canon(c[1], al), A.canon(c[2], al))
+            return A.canon(a, al, neg=not lab)
         for nd in g.rpo:
             if nd.kind not in ('stmt', 'return') or not isinstance(nd.ast, dict): continue
-            gs = tuple(sorted(render(a, lab) for a, lab, e in g.guards(nd) if lab in (True, False)))
-            out.add((gs, ('return ' + A.text(nd.ast.get('val'))) if nd.kind == 'return' else A.text(nd.ast)))
+            if A.is_alias_decl(nd.ast, al): continue
+            gs = tuple(sorted(set(render(a, lab) for a, lab, e in g.guards(nd) if lab in (True, False))))
+            out.add((gs, ('return ' + A.canon(nd.ast.get('val'), al)) if nd.kind == 'return' else (A.canon(nd.ast, al) if nd.ast.get('k') != 'DeclStmt' else A.text(nd.ast))))
         return out, ops
     for a, b in (('max_function', 'min_function'), ('max_by_function', 'min_by_function')):
         fa = [f for f in facts.functions if f['n'] == 'evaluate' and A.strip_targs(f.get('cls') or '').endswith('::' + a) and f.get('body') is not None and not f.get('dep')]
